@@ -206,14 +206,16 @@ def gen(rs: int, index: int, tier: str) -> Dict[str, Any]:
     dids = DIDS[:n_dids]
     enabled_layouts = [l for l in LAYOUTS if r.random() < 0.5] or [r.choice(LAYOUTS)]
     did_layout = {str(d): r.choice(enabled_layouts) for d in dids}
-    share_names = r.random() < 0.6
+    # service naming: by DID (same name <=> same request), unique per variant, or positional (the same
+    # name in different variants may stand for different requests)
+    naming = weighted(r, ["by_did", "unique", "positional"], [4, 3, 3])
     variants = []
     for vi in range(n_var):
         n_svc = r.randint(1, min(3, n_dids))
         vd = r.sample(dids, n_svc)
         services = []
         for si, d in enumerate(vd):
-            name = f"ident{dids.index(d)}" if share_names else f"v{vi}_svc{si}"
+            name = {"by_did": f"ident{dids.index(d)}", "unique": f"v{vi}_svc{si}", "positional": f"ident_{si}"}[naming]
             services.append({"name": name, "did": d})
         if kind == "base":
             n_pat = weighted(r, [0, 1], [1, 5])
